@@ -90,6 +90,18 @@ func listMutants(property string) []mutant {
 			out = append(out, mutant{Name: "seeded_" + e.Name(), Property: cj.Property, Expect: "fire", Rule: cj.Rules[0], What: "independent sub-agent mutation", Path: filepath.Join(verifDir(), "seeded", e.Name(), "patch.diff")})
 		}
 	}
+	// behaviour-preserving refactorings written by independent agents: the property's check must stay
+	// silent on every one of them (a routine helper extraction or inlining is not a violation)
+	if property != "" {
+		rdirs, _ := os.ReadDir(filepath.Join(verifDir(), "refactors"))
+		for _, e := range rdirs {
+			pf := filepath.Join(verifDir(), "refactors", e.Name(), "patch.diff")
+			if _, err := os.Stat(pf); err != nil {
+				continue
+			}
+			out = append(out, mutant{Name: "refactor_" + e.Name(), Property: property, Expect: "silent-own", What: "behaviour-preserving refactoring by an independent agent", Path: pf})
+		}
+	}
 	sort.Slice(out, func(i, j int) bool { return out[i].Name < out[j].Name })
 	return out
 }
